@@ -606,6 +606,8 @@ def mk_attr(base: Term, name: str) -> Term:
 
 def mk_index(base: Term, idx: Term) -> Term:
     c = const_value(idx)
+    if base[0] in ("tuple", "list") and idx[0] == "const" and isinstance(idx[1], bool) and len(base[1]) == 2:
+        return base[1][int(idx[1])]  # (a, b)[True] is b
     if base[0] in ("tuple", "list") and c is not None and c.denominator == 1:
         i = int(c)
         if -len(base[1]) <= i < len(base[1]):
